@@ -11,7 +11,7 @@ from harness import common as C
 from harness.common import clist, cbool
 
 PID = "C12"
-MAX_REPORTED = 4
+MAX_REPORTED = 3
 
 
 # ---------------------------------------------------------------------------
@@ -53,12 +53,14 @@ class Node:
 
 
 def mro(cls, pool):
-    """the class and its base classes, nearest first"""
-    out, cur = [], cls
-    while cur is not None and len(out) <= len(pool):
-        out.append(cur)
-        cur = pool.get(cur.get("base")) if cur.get("base") is not None else None
-    return out
+    """the classes whose methods a layer of this class sees, nearest first: the class, the plain
+    mixin classes listed before its layer base, the layer base's own MRO, the mixins listed after
+    (C3 linearisation of these shapes: every mixin is a plain class used by one class only)"""
+    out = [cls] + [{"h": m, "mixin": True} for m in cls.get("pre", [])]
+    b = pool.get(cls.get("base")) if cls.get("base") is not None else None
+    if b is not None and len(out) <= 4 * len(pool) + 8:
+        out += mro(b, pool)
+    return out + [{"h": m, "mixin": True} for m in cls.get("post", [])]
 
 
 def effective(cls, pool):
@@ -316,7 +318,7 @@ def classes(tree):
 # generation of class trees
 # ---------------------------------------------------------------------------
 
-def gen_tree(rng, max_depth=4, degenerate=False, inherit=0.45):
+def gen_tree(rng, max_depth=4, degenerate=False, inherit=0.45, mixins=0.3):
     """Random layer tree, depth <= max_depth.  Static aliases come from a small pool (the same
     alias may occur at several positions: scoping); contextual aliases are unique in the tree
     (INSTCOUNT is per class); a static sub-layer never has its parent's alias; sibling aliases
@@ -373,8 +375,13 @@ def gen_tree(rng, max_depth=4, degenerate=False, inherit=0.45):
             continue
         b = rng.choice(cands)
         c["base"] = b["id"]
-        if c["x"] and rng.random() < 0.5 and parent_of.get(c["id"]) is not parent_of.get(b["id"]):
-            c["a"] = b["a"]      # contextual class deriving from a contextual class and keeping its alias
+        if c["x"]:
+            r = rng.random()
+            gb = pool.get(b.get("base")) if b.get("base") is not None else None
+            if r < 0.45 and gb is not None and gb["a"] != b["a"]:
+                c["a"] = gb["a"]   # A('x') <- M('y') <- B('x'): a differently-aliased class between two classes sharing an alias
+            elif r < 0.65:
+                c["a"] = b["a"]    # contextual class deriving from a contextual class and keeping its alias
         beff = effective(b, pool)
         own = {}
         def rdeco(src_pool):
@@ -395,6 +402,27 @@ def gen_tree(rng, max_depth=4, degenerate=False, inherit=0.45):
             for d in own[hid]:
                 d[3] = "instance" if d[2] and rng.random() < 0.5 else "source"
         c["h"] = [[hid, own[hid]] for hid in sorted(own)]
+    # plain mixin classes (no alias, no LAYERS; each used by one class) listed before and/or after the
+    # layer base class; they may bring handlers or plain methods, with names that also exist elsewhere
+    for c in classes(tree):
+        c["pre"], c["post"] = [], []
+        if rng.random() > mixins:
+            continue
+        known = sorted({hid for k in mro(c, pool) for hid, _d in k["h"]}) or [0]
+        def mixin():
+            ms = {}
+            for _ in range(rng.choice([0, 1, 1, 2])):
+                hid = rng.choice(known) if rng.random() < 0.5 else rng.randrange(0, max(known) + 6)
+                ms[hid] = [] if rng.random() < 0.2 else [[rng.choice(aliases), rng.choice([0, 1, 2, 3]), rng.random() < 0.3, "source"]
+                                                          for _ in range(rng.choice([1, 1, 2]))]
+            return [[hid, ms[hid]] for hid in sorted(ms)]
+        r = rng.random()
+        if r < 0.6:
+            c["pre"].append(mixin())
+        if r > 0.4:
+            c["post"].append(mixin())
+        if rng.random() < 0.15:
+            c["pre"].append(mixin())
     return tree
 
 
@@ -414,7 +442,8 @@ def tree_to_program(tree):
     """every node a class with an (empty) LAYERS of its own, add() calls in tree order"""
     pool, setup = [], []
     def walk(t):
-        pool.append({"id": t["id"], "a": t["a"], "x": t["x"], "h": t["h"], "base": t.get("base"), "own_layers": True})
+        pool.append({"id": t["id"], "a": t["a"], "x": t["x"], "h": t["h"], "base": t.get("base"), "own_layers": True,
+                     "pre": t.get("pre", []), "post": t.get("post", [])})
         for sub in t["s"]:
             setup.append(["add", t["id"], sub["id"]])
         for sub in t["s"]:
@@ -463,7 +492,7 @@ def elaborate(pool, setup, root, max_depth=4, max_nodes=45):
         if count[0] > max_nodes:
             raise ValueError("too large")
         c = pd[cid]
-        return {"id": cid, "a": c["a"], "x": c["x"], "h": c["h"], "base": c.get("base"),
+        return {"id": cid, "a": c["a"], "x": c["x"], "h": c["h"], "base": c.get("base"), "pre": c.get("pre", []), "post": c.get("post", []),
                 "s": [build(sub, depth + 1, path | {cid}) for _a, sub in (layers(cid) or [])]}
     try:
         return build(root, 1, frozenset())
@@ -527,8 +556,10 @@ def tree_depth(t):
 
 def case_to_impl(case):
     case = as_program(case)
+    def hs(h):
+        return [[hid, [[astr(s), tstr(tg), cx, f] for s, tg, cx, f in decos]] for hid, decos in h]
     return {"pool": [{"id": c["id"], "base": c.get("base"), "a": astr(c["a"]), "x": c["x"], "own_layers": bool(c.get("own_layers")),
-                      "h": [[hid, [[astr(s), tstr(tg), cx, f] for s, tg, cx, f in decos]] for hid, decos in c["h"]]}
+                      "h": hs(c["h"]), "pre": [hs(m) for m in c.get("pre", [])], "post": [hs(m) for m in c.get("post", [])]}
                      for c in case["pool"]],
             "setup": case["setup"], "root": case["root"], "ops": [op_to_impl(o) for o in case["ops"]]}
 
@@ -557,8 +588,9 @@ def chs(h):
 def cprogram(case):
     """Coq literals: class pool, classes with an own (empty) LAYERS, set-up program, root class"""
     case = as_program(case)
-    pool = clist(["(%d, CDf %d %s %s %s)" % (c["id"], c["a"], cbool(c["x"]), chs(c["h"]),
-                                             "None" if c.get("base") is None else "(Some %d)" % c["base"]) for c in case["pool"]])
+    pool = clist(["(%d, CDf %d %s %s %s %s %s)" % (c["id"], c["a"], cbool(c["x"]), chs(c["h"]), clist([chs(m) for m in c.get("pre", [])]),
+                                                   "None" if c.get("base") is None else "(Some %d)" % c["base"],
+                                                   clist([chs(m) for m in c.get("post", [])])) for c in case["pool"]])
     ls0 = clist(["(%d, [])" % c["id"] for c in case["pool"] if c.get("own_layers")])
     prog = clist([("SAdd %d %d" if k == "add" else "SRemove %d %d") % (c, sub) for k, c, sub in case["setup"]])
     return "%s, %s, %s, %d" % (pool, ls0, prog, case["root"])
@@ -887,7 +919,7 @@ def shrink(case, what, budget=60):
     if r is None:
         return case
     cur = dict(cur, ops=cur["ops"][:r[1] + 1])
-    t_end = time.time() + 25
+    t_end = time.time() + 12
     for _ in range(budget):
         if time.time() > t_end:
             break
@@ -921,7 +953,7 @@ def corpus_cases():
 def gen_cases(ctx):
     rng = ctx.rng
     cases = corpus_cases()
-    n = 10000 if ctx.thorough else 800
+    n = 10000 if ctx.thorough else 500
     for j in range(n):
         g = gen_program(rng, max_depth=rng.choice([2, 3, 4, 4]))
         nops = rng.choice([8, 15, 25, 40]) if not ctx.thorough else rng.choice([10, 25, 40, 70])
@@ -950,7 +982,7 @@ def run(ctx):
     ]
     ctx.assumptions = [
         "LAYERS is a dict, so sibling aliases are distinct",
-        "layer classes: single inheritance between generated classes (static from static, contextual from contextual); the stack structure results from a sequence of cls.add(sub)/cls.remove(sub) calls executed after the classes exist; the resulting containment is a finite tree (no class contains itself)",
+        "layer classes: one layer base per generated class (static from static, contextual from contextual) plus plain mixin classes (no alias, no LAYERS, used by one class) listed before/after it - the shapes for which the C3 linearisation is a concatenation; the stack structure results from a sequence of cls.add(sub)/cls.remove(sub) calls executed after the classes exist; the resulting containment is a finite tree (no class contains itself)",
         "UNRELATED contextual classes of one stack have distinct aliases (INSTCOUNT lives in the base-most class of a hierarchy carrying the alias; the model's counter is per alias)",
         "load(): the state was produced by save() on a stack of the same classes (possibly before an interpreter restart) and is loaded into a freshly built stack; for the identity theorem: no static layer was destroyed, no static sub-layer has its parent's alias (wf_cls, static_ok; evaluated in Coq on every case)",
         "interpreter restart = class objects defined again (no INSTCOUNT), live stack gone, saved state kept",
@@ -1034,6 +1066,13 @@ def run(ctx):
                    "remove_statements": sum(1 for c in progs for st in c["setup"] if st[0] == "remove"),
                    "derived_classes": sum(1 for c in progs for d in c["pool"] if d.get("base") is not None),
                    "derived_contextual_classes": sum(1 for c in progs for d in c["pool"] if d.get("base") is not None and d["x"]),
+                   "classes_with_mixin_first": sum(1 for c in progs for d in c["pool"] if d.get("pre")),
+                   "classes_with_mixin_last": sum(1 for c in progs for d in c["pool"] if d.get("post")),
+                   "contextual_derived_mixin_first_same_alias": sum(1 for c in progs for d in c["pool"] if d.get("pre") and d["x"] and d.get("base") is not None
+                                                                    and d["a"] == {e["id"]: e for e in c["pool"]}[d["base"]]["a"]),
+                   "contextual_alias_change_in_the_middle": sum(1 for c in progs for d in c["pool"] if d["x"] and d.get("base") is not None
+                                                                and (lambda pd: pd[d["base"]]["a"] != d["a"] and pd[d["base"]].get("base") is not None
+                                                                     and pd[pd[d["base"]]["base"]]["a"] == d["a"])({e["id"]: e for e in c["pool"]})),
                    "derived_contextual_same_alias": sum(1 for c in progs for d in c["pool"] if d.get("base") is not None and d["x"]
                                                         and d["a"] == {e["id"]: e for e in c["pool"]}[d["base"]]["a"]),
                    "derived_inheriting_sublayers": sum(1 for c in progs for d in c["pool"] if d.get("base") is not None and not d.get("own_layers")),
